@@ -210,7 +210,8 @@ def gen_wf(rng, size):
     tasks reuse variable names for different struct types and different structs share attribute names"""
     if rng.random() < 0.4:
         vgen.VAR_NAMES = _FULL_VARS[:4]
-        vgen.ATTR_NAMES = _FULL_ATTRS[:11]
+        # attribute names that are also variable names (a struct attribute `pr` next to a task variable `pr`)
+        vgen.ATTR_NAMES = _FULL_ATTRS[:8] + _FULL_VARS[:3]
     else:
         vgen.VAR_NAMES = _FULL_VARS
         vgen.ATTR_NAMES = _FULL_ATTRS
@@ -245,10 +246,17 @@ def gen_shadow_program(rng, fault=False):
                                                                           {"k": "call", "name": "second", "ins": [], "outs": []}]}]
     for name, sname, ty in (("first", "SA", ta), ("second", "SB", tb)):
         ety = ta if (fault and name == "second") else ty
-        tasks.append({"name": name, "ins": [], "outs": [], "body": [
-            {"k": "svc", "name": "Get", "ins": [], "outs": [[v, sname]]},
-            {"k": "cond", "e": expr_for(ety, [v, a]), "passed": [{"k": "svc", "name": "Work", "ins": [v], "outs": []}], "failed": None},
-            {"k": "call", "name": use[ty], "ins": [[v, a]], "outs": []}]})
+        body = [{"k": "svc", "name": "Get", "ins": [], "outs": [[v, sname]]}]
+        uses = []
+        if rng.random() < 0.75:
+            uses.append({"k": "cond", "e": expr_for(ety, [v, a]), "passed": [{"k": "svc", "name": "Work", "ins": [v], "outs": []}], "failed": None})
+        if ety == "number" and rng.random() < 0.4:
+            uses.append({"k": "cloop", "var": "j", "limit": [v, a], "body": [{"k": "svc", "name": "Count", "ins": [], "outs": []}]})
+        if rng.random() < 0.5 or not uses:
+            uses.append({"k": "call", "name": use[ty], "ins": [[v, a]], "outs": []})
+        if fault and name == "second" and not any(u["k"] in ("cond", "cloop") for u in uses):
+            uses.insert(0, {"k": "cond", "e": expr_for(ety, [v, a]), "passed": [{"k": "svc", "name": "Work", "ins": [v], "outs": []}], "failed": None})
+        tasks.append({"name": name, "ins": [], "outs": [], "body": body + uses})
     for ty in {ta, tb}:
         tasks.append({"name": use[ty], "ins": [["x", ty]], "outs": [], "body": [{"k": "svc", "name": "Use", "ins": ["x"], "outs": []}]})
     rest = tasks[1:]
@@ -384,6 +392,11 @@ def known_fault_shape(info, prog=None):
     return False
 
 
+POSITION_CLASSES = {"unknown_variable_in_expression", "unknown_attribute_in_expression", "expr_ill_typed_operand",
+                    "unknown_variable_in_loop_limit", "unknown_attribute_in_loop_limit", "limit_ill_typed",
+                    "unknown_attribute_in_path", "unknown_variable_in_path_root", "call_arg_type_path"}
+
+
 def job_faults(args):
     """C10 / C19 / C16 / correspondence on single-fault programs"""
     seed, size, k = args
@@ -393,7 +406,14 @@ def job_faults(args):
     out = []
     try:
         prog = gen_wf(rng, size)
-        for mp_, info in vgen.sample_faults(prog, rng, k):
+        if k < 0:
+            # every position: all single faults of the classes that sit inside expressions / paths (capped)
+            fl = [f for f in vgen.enumerate_faults(prog) if f["cls"] in POSITION_CLASSES]
+            rng.shuffle(fl)
+            pairs = [vgen.apply_fault(prog, f) for f in fl[:36]]
+        else:
+            pairs = vgen.sample_faults(prog, rng, k)
+        for mp_, info in pairs:
             if info["cls"] in EXCLUDED_CLASSES:
                 continue
             if known_fault_shape(info, mp_):
@@ -402,6 +422,9 @@ def job_faults(args):
             text = vgen.print_program(mp_, lay)
             text = with_leading_lines(rng, mp_, text)
             target = vgen.resolve_target(mp_, info)
+            if info["cls"].startswith("literal_"):
+                # the same faulty literal has been validated before in this process, further down in a longer text
+                run_validator("# earlier version\n" * rng.randint(3, 40) + text)
             r = run_validator(text)
             rx = run_validator(text, extension=True)
             out.append({"cls": info["cls"], "whole_file": bool(info.get("whole_file")), "prog": mp_, "text": text,
@@ -692,6 +715,11 @@ def job_run_accepted(args):
                 label = "fault:" + info["cls"]
         elif mode == "near":
             prog, label = near_valid(prog, rng)
+        elif mode == "shadow":
+            # the same variable name with another struct type in a second task, used there with the operators that
+            # fit the first task's type: must be rejected; if it is accepted it is driven like any accepted program
+            prog = gen_shadow_program(rng, fault=rng.random() < 0.7)
+            label = "shadow"
         text = vgen.print_program(prog, None)
         r = run_validator(text)
         rec = {"seed": seed, "label": label, "text": text, "valid": r["valid"], "exc": r["exc"], "prog": prog}
@@ -871,9 +899,9 @@ def _run(ctx, pool, res):
     n_text = {"C16": 220, "C10": 0, "C11": 0, "C19": 0, "C09": 0}[prop] * (1 if quick else 10)
     n_run = {"C09": 160}.get(prop, 0) * (1 if quick else 10)
     wf_jobs = [(seed * 7919 + i, size) for i in range(n_wf)]
-    fault_jobs = [(seed * 104729 + i, size, 4) for i in range(n_fault)]
+    fault_jobs = [(seed * 104729 + i, size, 4) for i in range(n_fault)] + [(seed * 611953 + i, size, -1) for i in range(max(40, n_fault // 4) if n_fault else 0)]
     text_jobs = [(seed * 1299709 + i, size, 6) for i in range(n_text)]
-    run_jobs = [(seed * 15485863 + i, size, ["wf", "wf", "fault", "near"][i % 4]) for i in range(n_run)]
+    run_jobs = [(seed * 15485863 + i, size, ["wf", "wf", "fault", "near", "wf", "wf", "fault", "shadow"][i % 8]) for i in range(n_run)]
     wf_res = pool.map(job_wf, wf_jobs, chunksize=2) if wf_jobs else []
     fault_res = pool.map(job_faults, fault_jobs, chunksize=2) if fault_jobs else []
     text_res = pool.map(job_text, text_jobs, chunksize=2) if text_jobs else []
